@@ -10,6 +10,7 @@ import (
 	"go/types"
 	"os"
 	"path/filepath"
+	"regexp"
 	"sort"
 	"strings"
 	"sync"
@@ -39,7 +40,7 @@ type c1case struct {
 	Impl   outcome
 	Ref    outcome
 	Valid  bool
-	Coq    string // Gallina rendering (fragment stream)
+	Coq    string  // Gallina rendering (fragment stream)
 	Pred   *c1Pred // predicted (defective) yaegi outcome of a region template
 }
 
@@ -91,7 +92,8 @@ func runC01(args []string) error {
 	}
 	t0 := time.Now()
 	sm := newSummary("C01")
-	r := newRng(*seed)
+	// consecutive seeds of the shared splitmix generator give shifted copies of one stream: start from a hashed state
+	r := newRng(*seed).fork()
 	nMain, nBound, nFrag := 200, 1, 120
 	if *tier == "thorough" {
 		nMain, nBound, nFrag = 10000, 6, 3000
@@ -188,7 +190,7 @@ func runC01(args []string) error {
 			for _, c := range valid[i:j] {
 				progs = append(progs, goProg{Name: c.Name, Files: map[string]string{"main.go": c.Src}})
 			}
-			res, err := goRefBatch(progs, 20*time.Second, false)
+			res, err := c1RefBatch(progs, 20*time.Second)
 			if err != nil {
 				refErr = err
 				return
@@ -202,7 +204,7 @@ func runC01(args []string) error {
 	durs := make([]time.Duration, len(valid))
 	parallelMap(len(valid), 12, func(i int) {
 		t := time.Now()
-		valid[i].Impl = runYaegi(valid[i].Src, yaegiOpts{Timeout: 20 * time.Second})
+		valid[i].Impl = c1RunYaegiChild(valid[i].Src, 20*time.Second)
 		durs[i] = time.Since(t)
 	})
 	tYaegi := time.Since(tY0)
@@ -210,7 +212,7 @@ func runC01(args []string) error {
 	// a timeout under load is re-examined alone before it counts
 	for i, c := range valid {
 		if c.Impl.End == "timeout" {
-			c.Impl = runYaegi(c.Src, yaegiOpts{Timeout: 40 * time.Second})
+			c.Impl = c1RunYaegiChild(c.Src, 40*time.Second)
 			sm.count("yaegi-timeout-rerun")
 		}
 		if durs[i] > 5*time.Second {
@@ -256,6 +258,11 @@ func runC01(args []string) error {
 		}
 		region := c.Region
 		note := ""
+		if region == "" && c.Impl.End == c.Ref.End && c1NegZero(c.Impl.Stdout) == c1NegZero(c.Ref.Stdout) {
+			// the outputs differ only in the sign of floating-point zeros (finding C01-float-negzero);
+			// this region is decided on the outputs, not on the source
+			region = "float-negzero"
+		}
 		if region != "" && c.Pred != nil && (c.Impl.Stdout != c.Pred.Stdout || !strings.HasPrefix(c.Impl.End, c.Pred.End)) {
 			// a region template whose wrong output is not the predicted one: not attributable
 			note = "region " + region + ": yaegi's output differs from the predicted defect output"
@@ -299,6 +306,16 @@ func runC01(args []string) error {
 	}
 	sort.Strings(keys)
 	return sm.write(*out)
+}
+
+var c1NegZeroRe = regexp.MustCompile(`(^|[^0-9.eE+-])-0($|[^0-9.xX])`)
+
+// c1NegZero replaces the token -0 by 0.
+func c1NegZero(s string) string {
+	for i := 0; i < 3; i++ {
+		s = c1NegZeroRe.ReplaceAllString(s, "${1}0${2}")
+	}
+	return s
 }
 
 func clip(s string, n int) string {
